@@ -1322,6 +1322,19 @@ theorem clean_renderField (c : Ctx) (g : Option String) (r ft : String) (quals :
   simp only []
   split <;> exact Clean.pure _
 
+theorem clean_mapM {α β} (f : α → Outcome β) (hf : ∀ x, Clean (f x)) :
+    ∀ (l : List α), Clean (l.mapM f)
+  | [] => by rw [List.mapM_nil]; exact Clean.pure _
+  | a :: l => by
+    rw [List.mapM_cons]
+    exact Clean.bind (hf a) (fun _ _ => Clean.bind (clean_mapM f hf l) (fun _ _ => Clean.pure _))
+
+theorem clean_aliasMember (c : Ctx) (a : Item) : Clean (aliasMember c a) := by
+  unfold aliasMember
+  split
+  · exact Clean.bind (clean_renderField _ _ _ _ _ _ _ _) (fun _ _ => Clean.pure _)
+  · exact Clean.bind (clean_renderField _ _ _ _ _ _ _ _) (fun _ _ => Clean.pure _)
+  · exact Clean.pure _
 
 
 /-! ### structural facts -/
@@ -1474,7 +1487,7 @@ theorem step2 (f : Nat) (H2 : Stmt2 c N M f) (H3 : Stmt3 c N M f) : Stmt2 c N M 
     rw [calcVariants.eq_3]
     simp only []
     clean_auto
-    all_goals exact hmine _
+    all_goals first | exact hmine _ | exact clean_mapM _ (clean_aliasMember c) _
 
 theorem variantSels_spec (q : Query) (ty : TypeId) : ∀ (sels : List Sel) (vsels : List VariantSel),
     sels.filterMapM (variantSelOf q ty) = .ok vsels →
@@ -1866,13 +1879,6 @@ theorem litOnly_filterMapM {α β} (f : α → Outcome (Option β)) (hf : ∀ x,
     cases o with
     | none => exact litOnly_filterMapM f hf l
     | some b => exact LitOnly.bind (litOnly_filterMapM f hf l) (fun _ _ => (Clean.pure _).litOnly)
-
-theorem clean_mapM {α β} (f : α → Outcome β) (hf : ∀ x, Clean (f x)) :
-    ∀ (l : List α), Clean (l.mapM f)
-  | [] => by rw [List.mapM_nil]; exact Clean.pure _
-  | a :: l => by
-    rw [List.mapM_cons]
-    exact Clean.bind (hf a) (fun _ _ => Clean.bind (clean_mapM f hf l) (fun _ _ => Clean.pure _))
 
 theorem literalOk_litOnly (s : Schema) : ∀ (fuel : Nat) (v : Value) (ty : TypeId), LitOnly (literalOk s fuel v ty) := by
   intro fuel
